@@ -62,7 +62,7 @@ const changelogYAML = `- semver: "1.3.0"
     urgency: medium
     distributions: [bookworm]
   changes:
-    - note: "note 1"
+    - note: "note 1: 20% faster, 100%% sure, %{name}"
     - note: "note 2\nsecond line"
 - semver: "1.0.0-1"
   date: "2009-11-10T23:00:00Z"
@@ -243,7 +243,7 @@ func scriptBytes(rng *rand.Rand, tag string) []byte {
 	case 3:
 		return []byte("#!/bin/sh\n# " + tag + "\nif true; then\n  exit 0\nfi\n}\n{\n")
 	}
-	return []byte("#!/bin/sh\n\n\n" + tag + " $1 \"quoted\" 'single' \\back\n")
+	return []byte("#!/bin/sh\n\n\n" + tag + " $1 \"quoted\" 'single' \\back\nprintf '100%%\\n' # %{macro} %% %s\n")
 }
 
 func (g *pkgGen) config(i int) genOut {
@@ -266,6 +266,10 @@ func (g *pkgGen) config(i int) genOut {
 	if g.chance(8) {
 		c.VersionSchema = "none"
 		c.Version = g.pick([]string{"2024.01.02", "1.0", "v7", "1.2.3.4", "1.0.0-rc1"})
+	}
+	if g.chance(5) {
+		// a format-specific architecture is written verbatim - also when it reads like a GOARCH the tables know
+		c.RPM.Arch, c.IPK.Arch, c.Deb.Arch, c.APK.Arch, c.ArchLinux.Arch = g.pick([]string{"amd64", "all", "arm6"}), g.pick([]string{"amd64", "386"}), g.pick([]string{"arm7", "all"}), g.pick([]string{"arm64", "amd64"}), g.pick([]string{"amd64", "arm5", "all"})
 	}
 	c.Section = g.pick([]string{"", "default", "utils"})
 	c.Priority = g.pick([]string{"", "extra", "optional"})
